@@ -428,6 +428,37 @@ fn execute_selrace(c: &DCfg, seed: u64, n: usize) -> W {
     let wrong = d.iter().position(|(v, a)| *v != ((id_seq(*a) - 1) % 3) as u8);
     let code = if let Some(i) = dup { i as u64 } else if wrong.is_some() || d.len() != rounds { u64::MAX - 1 } else { u64::MAX };
     w.ctx.ev(K::Mark, 0, dup.map(|i| d[i].0 as u32).unwrap_or(0), MARK_SELRACE, code, d.len() as u64, n as u8);
+    // second phase, a fresh instance, no lock step: every thread runs through its own value sequence at its
+    // own pace. The deliveries (recorded inside the callback) still never repeat a value back to back.
+    let delivered2: Arc<std::sync::Mutex<Vec<(u8, u32)>>> = Arc::new(std::sync::Mutex::new(Vec::new()));
+    let d3 = delivered2.clone();
+    let sub2 = rs_store::SelectorSubscriber::new(SelSelector, move |v: u8, a: Act| d3.lock().unwrap().push((v, a.id)));
+    let go = std::sync::atomic::AtomicUsize::new(0);
+    std::thread::scope(|sc| {
+        for t in 0..n {
+            let (sub2, go) = (&sub2, &go);
+            std::thread::Builder::new().name(format!("free{}", t)).spawn_scoped(sc, move || {
+                go.fetch_add(1, std::sync::atomic::Ordering::AcqRel);
+                while go.load(std::sync::atomic::Ordering::Acquire) < n {
+                    std::thread::yield_now();
+                }
+                let mut st = St::initial(0);
+                let mut rng = Rng::new(mix(seed, 70 + t as u64));
+                for k in 0..rounds {
+                    st.sel = rng.below(3) as u8;
+                    st.steps = k as u64 + 1;
+                    // (the value travels in the action id's sequence field: seq = 3k + value + 1)
+                    let act = Act { id: act_id(0, 10 + t as u32, 3 * k as u32 + st.sel as u32 + 1), script: 0 };
+                    <rs_store::SelectorSubscriber<St, Act, SelSelector, u8> as rs_store::Subscriber<St, Act>>::on_notify(sub2, &st, &act);
+                }
+            }).unwrap();
+        }
+    });
+    let d = delivered2.lock().unwrap().clone();
+    let dup = d.windows(2).position(|p| p[0].0 == p[1].0);
+    let wrong = d.iter().position(|(v, a)| *v != ((id_seq(*a) - 1) % 3) as u8);
+    let code = if let Some(i) = dup { i as u64 } else if wrong.is_some() || d.is_empty() { u64::MAX - 1 } else { u64::MAX };
+    w.ctx.ev(K::Mark, 1, dup.map(|i| d[i].0 as u32).unwrap_or(0), MARK_SELRACE, code, d.len() as u64, n as u8);
     w.stop(0, STOP_STOP);
     w
 }
@@ -1120,15 +1151,19 @@ pub fn c14(h: &Hist, s: u8, v: &mut Verdicts) {
 }
 
 pub fn c16(h: &Hist, s: u8, v: &mut Verdicts) {
-    if let Some(m) = h.evs.iter().find(|e| e.k == K::Mark && e.idx == MARK_SELRACE) {
+    let marks: Vec<&Ev> = h.evs.iter().filter(|e| e.k == K::Mark && e.idx == MARK_SELRACE).collect();
+    if !marks.is_empty() {
         v.evaluated.insert("C16");
         let rounds = if cfg!(miri) { 5 } else { 300 };
-        if m.x == u64::MAX - 1 {
-            v.fail("C16", format!("a SelectorSubscriber notified by {} threads at once ({} rounds, one new value per round) made {} deliveries that are not one per round with that round's value", m.r, rounds, m.y));
-        } else if m.x != u64::MAX {
-            v.fail("C16", format!("a SelectorSubscriber notified by {} threads at once delivered the value {} twice in a row (deliveries #{} and #{} of {}): comparing with the last delivered value and remembering the new one is not one atomic step", m.r, m.a, m.x, m.x + 1, m.y));
+        for m in marks {
+            let how = if m.store == 0 { "in lock step (one new value per round)" } else { "each at its own pace" };
+            if m.x == u64::MAX - 1 {
+                v.fail("C16", format!("a SelectorSubscriber notified by {} threads at once, {}: its {} deliveries are not what the calls presented{}", m.r, how, m.y, if m.store == 0 { " (one per round, that round's value)" } else { "" }));
+            } else if m.x != u64::MAX {
+                v.fail("C16", format!("a SelectorSubscriber notified by {} threads at once, {}, delivered the value {} twice in a row (deliveries #{} and #{} of {}): comparing with the last delivered value, remembering the new one and delivering it are not one atomic step", m.r, how, m.a, m.x, m.x + 1, m.y));
+            }
         }
-        v.count("c16.concurrent_notify_rounds", rounds);
+        v.count("c16.concurrent_notify_rounds", 2 * rounds);
         v.nontrivial.insert("C16");
         return;
     }
